@@ -248,6 +248,15 @@ theorem walk_splice (user : Option Cond) (s e : Int) (h : userNoTL user = true) 
     rw [walkFrom_append, walkFrom_noTL _ _ _ h]
     simp [walkFrom, walkAtom, atoms_length]
 
+/-- After the user's atoms (whatever the walk found there), the two spliced literals: the walk can only end
+without error when it found nothing before, and then it holds exactly their positions. -/
+theorem walk_tail (w1 : Walk) (n : Nat) (s e : Int) (i j : Nat) :
+    (walkFrom w1 n [.time .ge s true, .time .lt e true]).start = some i →
+    (walkFrom w1 n [.time .ge s true, .time .lt e true]).stop = some j →
+    (walkFrom w1 n [.time .ge s true, .time .lt e true]).err = false → i = n ∧ j = n + 1 := by
+  rcases w1 with ⟨st, sp, er⟩
+  cases st <;> cases sp <;> simp [walkFrom, walkAtom] <;> omega
+
 /-- The states the node's query can be in: NewQuery's shape with some times and, under alignGroup, some
 group-by offset. -/
 def Reach (user : Option Cond) (gb : Option (Int × Int)) (ag : Bool) (q : Query) : Prop :=
